@@ -791,6 +791,50 @@ theorem lens_power (py px Fy Fx : RegAxis) (lam f : ℝ) (My Mx : ℕ) (emu numF
   funext k
   exact hF _ E k
 
+/-- … in inner-product form for two fields (two components of a Jones vector / Jones matrix, which
+`multiplex_for_tensor_fields` sends through the same pipeline): `Σ conj(E') G' w_focal = Σ conj(E) G w_pupil`. -/
+theorem lens_inner (py px Fy Fx : RegAxis) (lam f : ℝ) (My Mx : ℕ) (emu numFft cheaper : Bool) (m : Method)
+    (hm : (Fft.choose detectFix regDesc (some ⟨regDesc, numFft⟩) cheaper).map (·.method) = some m)
+    (hn : numFft = true → lam * f ≠ 0 ∧ NativeAxis py Fy (lam * f) My ∧ NativeAxis px Fx (lam * f) Mx)
+    (hpos : 0 < lam * f) (hfull : FullAt py px Fy Fx (lam * f)) (E G : Fin py.n × Fin px.n → ℂ) :
+    wip (regGrid2 Fy Fx).weights
+        (fun k : Fin Fy.n × Fin Fx.n =>
+          lensForward expT expE (2 * Real.pi) Complex.ofReal (normFactorC lam f) m emu (axOf py) (axOf px) (axOf Fy)
+            (axOf Fx) (lam * f) My Mx (ext2 E) k.1 k.2)
+        (fun k : Fin Fy.n × Fin Fx.n =>
+          lensForward expT expE (2 * Real.pi) Complex.ofReal (normFactorC lam f) m emu (axOf py) (axOf px) (axOf Fy)
+            (axOf Fx) (lam * f) My Mx (ext2 G) k.1 k.2)
+      = wip (regGrid2 py px).weights E G := by
+  obtain ⟨T, hT, _, hF, _⟩ := lens_transform py px Fy Fx (lam * f) My Mx emu numFft cheaper m hm hn
+  have h := fraunhofer_inner (τ := Bool) ⟨regGrid2 py px, regGrid2 Fy Fx, fun _ => f, fun _ => T⟩
+    ⟨fun b => if b then E else G, lam, none⟩ hpos (by
+      show ParsevalOn T (regGrid2 py px) ((regGrid2 Fy Fx).scaled (uvScaleR lam f))
+      rw [uvScaleR_eq]; exact parseval_of_full hfull hT) true false
+  have hE : (fun k : Fin Fy.n × Fin Fx.n =>
+      lensForward expT expE (2 * Real.pi) Complex.ofReal (normFactorC lam f) m emu (axOf py) (axOf px) (axOf Fy)
+        (axOf Fx) (lam * f) My Mx (ext2 E) k.1 k.2) = normFactorC lam f • T.fwd E := by
+    funext k; exact hF _ E k
+  have hG : (fun k : Fin Fy.n × Fin Fx.n =>
+      lensForward expT expE (2 * Real.pi) Complex.ofReal (normFactorC lam f) m emu (axOf py) (axOf px) (axOf Fy)
+        (axOf Fx) (lam * f) My Mx (ext2 G) k.1 k.2) = normFactorC lam f • T.fwd G := by
+    funext k; exact hF _ G k
+  rw [hE, hG]
+  exact h
+
+/-- **Stokes-`I` power of a Jones-matrix wavefront through the executed pipeline** is conserved on a full conjugate
+grid (each of the four components goes through `lensForward`). -/
+theorem lens_stokes_power (py px Fy Fx : RegAxis) (lam f : ℝ) (My Mx : ℕ) (emu numFft cheaper : Bool) (m : Method)
+    (hm : (Fft.choose detectFix regDesc (some ⟨regDesc, numFft⟩) cheaper).map (·.method) = some m)
+    (hn : numFft = true → lam * f ≠ 0 ∧ NativeAxis py Fy (lam * f) My ∧ NativeAxis px Fx (lam * f) Mx)
+    (hpos : 0 < lam * f) (hfull : FullAt py px Fy Fx (lam * f)) (S : Fin 4 → ℝ)
+    (E : Fin 2 × Fin 2 → Fin py.n × Fin px.n → ℂ) :
+    stokesPower (regGrid2 Fy Fx).weights S (fun c (k : Fin Fy.n × Fin Fx.n) =>
+        lensForward expT expE (2 * Real.pi) Complex.ofReal (normFactorC lam f) m emu (axOf py) (axOf px) (axOf Fy)
+          (axOf Fx) (lam * f) My Mx (ext2 (E c)) k.1 k.2)
+      = stokesPower (regGrid2 py px).weights S E := by
+  rw [stokesPower_eq_re, stokesPower_eq_re]
+  simp only [lens_inner py px Fy Fx lam f My Mx emu numFft cheaper m hm hn hpos hfull]
+
 /-- **Backward after forward of the executed pipeline restores the field** on a full conjugate grid. -/
 theorem lens_inverse (py px Fy Fx : RegAxis) (lam f : ℝ) (My Mx : ℕ) (emu numFft cheaper : Bool) (m : Method)
     (hm : (Fft.choose detectFix regDesc (some ⟨regDesc, numFft⟩) cheaper).map (·.method) = some m)
@@ -855,6 +899,29 @@ theorem lens_forward_eq_integral_of_model (s : Setup) (focal : RegGrid) {δx δy
     obtain ⟨rfl, rfl⟩ := this
     rw [← hcast]
     exact ⟨by exact_mod_cast hlf, nativeAxis_cast hNy hMoy hy, nativeAxis_cast hNx hMox hx⟩
+
+/-- **One propagator object after any history of `focal_length` assignments** (executable `Session`, unbounded
+history `fs`, last assignment `g`, constant or wavelength-dependent): the pipeline run on the instance the object
+uses at wavelength `lam` is the scaled integral for the **last** assigned focal length `g(λ)`. -/
+theorem lens_forward_eq_integral_after_sets (ss : Session) (fs : List FocalSpec) (g : FocalSpec) (lam : ℚ)
+    (focal : RegGrid) {δx δy Δx Δy zx zy Zx Zy : ℚ} {Nx Ny Mox Moy : ℕ}
+    (hp : ss.pupil = ⟨[δx, δy], [Nx, Ny], [zx, zy]⟩) (hf : focal = ⟨[Δx, Δy], [Mox, Moy], [Zx, Zy]⟩)
+    (hlf : lam * g.eval lam ≠ 0) (cheaper emu : Bool) (m : Method)
+    (hm : lensMethod (((fs ++ [g]).foldl Session.setFocalLength ss).instanceAt lam) focal cheaper = some m)
+    (Mx My : ℕ)
+    (hM : (classify (((fs ++ [g]).foldl Session.setFocalLength ss).instanceAt lam) focal).1 ≠ .other →
+      (classify (((fs ++ [g]).foldl Session.setFocalLength ss).instanceAt lam) focal).2 = [Mx, My])
+    (E : Fin Ny × Fin Nx → ℂ) (k : Fin Moy × Fin Mox) :
+    lensForward expT expE (2 * Real.pi) Complex.ofReal (normFactorC (lam : ℝ) ((g.eval lam : ℚ) : ℝ)) m emu
+        (axOf (axisR Ny δy zy)) (axOf (axisR Nx δx zx)) (axOf (axisR Moy Δy Zy)) (axOf (axisR Mox Δx Zx))
+        ((lam : ℝ) * ((g.eval lam : ℚ) : ℝ)) My Mx (ext2 E) k.1 k.2
+      = 1 / (I * ((lam : ℝ) : ℂ) * (((g.eval lam : ℚ) : ℝ) : ℂ))
+        * ∑ j : Fin Ny × Fin Nx, E j * (((δy : ℝ) * (δx : ℝ) : ℝ) : ℂ)
+            * cexp (-(2 * (Real.pi : ℂ) * I * ((dot ![(axisR Mox Δx Zx).x k.2, (axisR Moy Δy Zy).x k.1]
+                  ![(axisR Nx δx zx).x j.2, (axisR Ny δy zy).x j.1] : ℝ) : ℂ))
+                / (((lam : ℝ) : ℂ) * (((g.eval lam : ℚ) : ℝ) : ℂ))) := by
+  rw [session_instance_after_sets ss fs g lam] at hm hM
+  exact lens_forward_eq_integral_of_model ⟨lam, g.eval lam, ss.pupil⟩ focal hp hf hlf cheaper emu m hm Mx My hM E k
 
 /-- **… and conserves power when `classify` says `full`** (`λ f > 0`): the executable classification the harness
 compares with the class `make_fourier_transform` returned implies the hypothesis of `lens_power`. -/
